@@ -94,20 +94,37 @@ def load_known() -> List[dict]:
         return json.load(f).get("findings", [])
 
 
-def finish(ck: Checker, t0: float, seed: int, selfval: Optional[dict] = None, replay: Optional[str] = None) -> int:
-    """Print the verdict lines, write evidence, return the exit code."""
-    ck.check_expected()
+def stable_key(key: str) -> str:
+    """A construct key without its statement text: `<qualname>::<stmt head>::<tag>` -> `<qualname>::<tag>`.
+    Known findings are matched on (rule, stable key) so that renaming a local or re-wrapping the
+    statement that carries a recorded finding does not turn it into a "new" violation; a violation
+    of another rule, in another function, or with another obligation tag is still new."""
+    parts = key.split("::")
+    if len(parts) <= 2:
+        return key
+    # a statement head may itself end in ':' (`for x in y:`), which leaves an empty-looking piece
+    return parts[0] + "::" + parts[-1].lstrip(":")
+
+
+def split_known(ck: "Checker"):
     known = [k for k in load_known() if k.get("property") == ck.prop]
-    open_keys = {(k["rule"], k["key"]): k for k in known if k.get("status") == "open"}
-    viols = [o for o in ck.obs if o.verdict == "violation"]
-    new = []
-    seen_known = []
-    for v in viols:
-        k = open_keys.get((v.rule, v.key))
+    open_keys = {(k["rule"], stable_key(k["key"])): k for k in known if k.get("status") == "open"}
+    new, seen_known = [], []
+    for v in ck.obs:
+        if v.verdict != "violation":
+            continue
+        k = open_keys.get((v.rule, stable_key(v.key)))
         if k is not None:
             seen_known.append((v, k))
         else:
             new.append(v)
+    return seen_known, new
+
+
+def finish(ck: Checker, t0: float, seed: int, selfval: Optional[dict] = None, replay: Optional[str] = None) -> int:
+    """Print the verdict lines, write evidence, return the exit code."""
+    ck.check_expected()
+    seen_known, new = split_known(ck)
     os.makedirs(os.path.join(EVIDENCE_DIR, "replay"), exist_ok=True)
     for (v, k) in seen_known:
         print("KNOWN-FINDING: property=%s %s %s -- %s" % (ck.prop, v.rule, v.key, k.get("what", v.msg)))
